@@ -29,6 +29,11 @@ def setup(common=None):
     mpmath.mp.dps = 40
     import unyt.array as uarray
 
+    import decimal
+
+    import numpy
+
+    _U.update(np=numpy, Decimal=decimal.Decimal)
     _U.update(array=uarray, unyt=unyt, D=D, Unit=Unit, UnitRegistry=UnitRegistry, sympy=sympy, mp=mpmath, mode=common["mode"])
     base = [getattr(D, n) for n in DIMNAMES]
     others = [b for b in D.base_dimensions if not any(b == x for x in base) and b != 1 and str(b) != "1" and str(b) != "(dimensionless)"]
@@ -243,6 +248,21 @@ def _exponent(e):
         return n / d
     if kind == "dec2":
         return float(f"{n / d:.2f}")
+    # spellings whose value as a float is not the rational they are read as (UnitAlg!ReadKinds)
+    if kind == "dec7":
+        return float(f"{n / d:.7f}")
+    if kind == "f32":
+        return _U["np"].float32(n / d)
+    if kind == "f16":
+        return _U["np"].float16(n / d)
+    if kind == "np64":
+        return _U["np"].float64(n / d)
+    if kind == "dcm":
+        return _U["Decimal"](f"{n / d:.7f}")
+    if kind == "str":
+        return f"{n}/{d}"
+    if kind == "strd":
+        return f"{n / d:.7f}"
     raise ValueError(kind)
 
 
@@ -537,12 +557,14 @@ def _run(case, hreg, hashes, olds=None):
     for pr in case["pairs"]:
         a, b = objs[pr["i"] - 1], objs[pr["j"] - 1]
         if a is None or b is None:
-            pairs.append({"eq": False, "eqr": False, "heq": False, "same": False, "serr": CAP})
+            pairs.append({"eq": False, "eqr": False, "ne": True, "ner": True, "heq": False, "same": False, "serr": CAP})
             continue
         pairs.append(
             {
                 "eq": bool(a == b),
                 "eqr": bool(b == a),
+                "ne": bool(a != b),
+                "ner": bool(b != a),
                 "heq": hash(a) == hash(b),
                 "same": bool(a.expr == b.expr),
                 "serr": _err(a.base_value, b.base_value),
